@@ -7,3 +7,9 @@ Definition flag_mappings : N := 1.
 Definition flag_despawns : N := 2.
 Definition flag_removals : N := 4.
 Definition flag_changes : N := 8.
+Definition tick_width : N := 32.
+Definition hist_mask_width : N := 64.
+Definition mt_window_width : N := 64.
+Definition mutate_index_width : N := 16.
+Definition default_priority_single : N := 1.
+Definition tcp_size_width : N := 16.
